@@ -944,7 +944,52 @@ def gen_sites():
     return write_if_changed("Sites.lean", "\n".join(lines) + "\n")
 
 
-GENERATORS = [gen_gridops, gen_axis, gen_grid_defaults, gen_regex, gen_sites]
+def gen_tables():
+    """small literal tables: SGRID padding words, COMODO shift constants, boundary word -> xarray pad mode"""
+    lines = ["import XgcmModel.Model.Basic",
+             "/- GENERATED by tools/extract.py from xgcm/sgrid.py, xgcm/comodo.py, xgcm/padding.py — do not edit -/",
+             "namespace Xgcm.Gen", "open Xgcm", ""]
+    # sgrid.py: pad2pos (a dict literal assigned inside a function)
+    pad2pos = None
+    for node in ast.walk(ast.parse(src("sgrid.py"))):
+        if isinstance(node, ast.Assign) and len(node.targets) == 1 and isinstance(node.targets[0], ast.Name) \
+                and node.targets[0].id == "pad2pos" and isinstance(node.value, ast.Dict):
+            try:
+                pad2pos = literal(node.value)
+            except Exception:
+                pad2pos = None
+    lines.append("/-- `pad2pos` of sgrid.py: padding word -> position of the node dimension -/")
+    lines.append("def sgridPad2Pos : List (String × String) := [" + ", ".join(
+        f"({lean_str(str(k))}, {lean_str(str(v))})" for k, v in (pad2pos or {}).items()) + "]")
+    # comodo.py: shift constants, as twice the value (an integer)
+    ctree = ast.parse(src("comodo.py"))
+    consts = {}
+    for nm in ("axis_shift_left", "axis_shift_right", "axis_shift_center"):
+        v = module_assign(ctree, nm)
+        try:
+            consts[nm] = literal(v) if v is not None else None
+        except Exception:
+            consts[nm] = None
+    def twice(x):
+        return str(int(round(float(x) * 2))) if isinstance(x, (int, float)) and float(x) * 2 == round(float(x) * 2) else "999"
+    lines.append("/-- COMODO `c_grid_axis_shift` constants (left, right, center), doubled -/")
+    lines.append("def comodoShiftsTwice : List Int := [" + ", ".join(twice(consts.get(k)) for k in
+                 ("axis_shift_left", "axis_shift_right", "axis_shift_center")) + "]")
+    # padding.py: boundary word -> pad mode
+    ptree = ast.parse(src("padding.py"))
+    pm = module_assign(ptree, "_XGCM_BOUNDARY_KWARG_TO_XARRAY_PAD_KWARG")
+    try:
+        pmv = literal(pm) if pm is not None else {}
+    except Exception:
+        pmv = {}
+    lines.append("/-- `_XGCM_BOUNDARY_KWARG_TO_XARRAY_PAD_KWARG` (the `None` key spelled \"None\") -/")
+    lines.append("def padModes : List (String × String) := [" + ", ".join(
+        f"({lean_str(str(k))}, {lean_str(str(v))})" for k, v in pmv.items()) + "]")
+    lines += ["", "end Xgcm.Gen"]
+    return write_if_changed("Tables.lean", "\n".join(lines) + "\n")
+
+
+GENERATORS = [gen_gridops, gen_axis, gen_grid_defaults, gen_regex, gen_sites, gen_tables]
 
 
 def main():
